@@ -7,7 +7,7 @@ import re
 from .. import core, gen
 from ..core import Rng
 from ..engine import Outcome
-from .base import STD, exec_args, gen_run, plan_of, not_meta, crashed, classify_diff, exotic_tag, crash_text
+from .base import STD, exec_args, gen_run, plan_of, not_meta, crashed, classify_diff, exotic_tag, crash_text, split_static_function, K8_SIG
 
 WP_UNMATCHED = re.compile(r"Unmatched suppression: (unusedFunction|staticFunction|ctu\w+)$")
 
@@ -121,6 +121,11 @@ def compare_runs(scn, ref, res, out, prop_filter=None, cls="parallel-differs"):
         out.states.append("%s|%d|%s" % (run["exec"], run.get("jobs", 1), r.trace_hash))
         if ms != mr or not r.xml_ok:
             oa, ob = core.diff_multisets(ms, mr)
+            oa, ob, k8 = split_static_function(oa, ob)
+            if k8:
+                out.violate(cls, K8_SIG, ["%s vs -j1 (build dir: %s)" % (ex, bd), "staticFunction findings of -j1 are absent"], ids="-staticFunction")
+            if not (oa or ob) and r.xml_ok:
+                continue
             kind = classify_diff(oa, ob) if r.xml_ok else "malformed-output"
             if r.xml_ok and oa and ob:
                 # do the two sides differ only by cppcheck's own sanitising of non-printable message bytes (\\ooo)?
